@@ -1,2 +1,3 @@
 -- root of the library: every property module (each imports its models, generated tables and lemmas)
+import ConjureVerif.Props.C07
 import ConjureVerif.Props.C15
